@@ -55,6 +55,13 @@ def install():
 
   def sim_is_alive(self):
     st = getattr(self, "_sim_thread", None)
+    # the player object is a real threading.Thread: what its own is_alive()
+    # consults besides the thread state (CPython: the private _is_stopped
+    # flag) is honoured, so code that disturbs that state is not masked by
+    # the stub.  On an undisturbed object the flag turns true only after
+    # the simulated thread has finished, so this never changes an answer.
+    if getattr(self, "_is_stopped", False) is True:
+      return False
     return st is not None and st.state != "finished"
 
   orig_stop = AT.stop
